@@ -10,6 +10,18 @@ from .common import FIELD, MESH, REGION
 from .c01 import each, _single_return
 
 FLOOR = 26
+ANCHORS = [
+    'io.hdf5._RegionIO_HDF5._h5_save',
+    'io.hdf5._RegionIO_HDF5._h5_load',
+    'io.hdf5._MeshIO_HDF5._h5_save',
+    'io.hdf5._MeshIO_HDF5._h5_load',
+    'io.hdf5._FieldIO_HDF5._to_hdf5',
+    'io.hdf5._FieldIO_HDF5._h5_save_structure',
+    'io.hdf5._FieldIO_HDF5._h5_save_data',
+    'io.hdf5._FieldIO_HDF5._from_hdf5',
+    'io.hdf5._FieldIO_HDF5._h5_load_field',
+    'io.hdf5._FieldIO_HDF5._h5_legacy_load_field',
+]   # functions whose code the property is anchored in (mutation analysis, evidence)
 H5 = "io.hdf5."
 
 
